@@ -1,4 +1,51 @@
-(* Wire interface of Model/GlobalRw.v (dispatch numbers 130-139). *)
-From DD Require Import Base.Wire Model.Rewrites Run.RwWire.
+(* Wire interface of Model/GlobalRw.v (dispatch numbers 130-136).
+   A gsimp travels as [ids; struct; fresh] with ids = [[path; value] ...], struct = [[key; value] ...],
+   value = [] (deleted) | [shape]; the result of a model as [0] (raises) | [1; [gsimp ...]]. *)
+From DD Require Import Base.Wire Model.Rewrites Model.GlobalRw Run.RwWire Run.CoreWire.
 Local Open Scope list_scope.
-Definition dispatch_more4 (f : Z) (w : wire) : wire := w_err.
+
+Definition w_osexp (o : option sexp) : wire := match o with Some x => WL [w_sexp x] | None => WL [] end.
+Definition w_path (p : path) : wire := WL (map w_nat p).
+Definition w_gsimp (g : gsimp) : wire :=
+  match g with
+  | GS ids st fr =>
+      WL [WL (map (fun pv => WL [w_path (fst pv); w_osexp (snd pv)]) ids);
+          WL (map (fun kv => WL [w_sexp (fst kv); w_osexp (snd kv)]) st);
+          w_sexps fr]
+  end.
+Definition w_ogsimps (o : option (list gsimp)) : wire :=
+  match o with Some l => WL [WN 1%Z; WL (map w_gsimp l)] | None => WL [WN 0%Z] end.
+
+Definition r_path (w : wire) : path := map r_nat (r_list w).
+Definition r_oZ (w : wire) : option Z := match w with WL [WN z] => Some z | _ => None end.
+(* [[name; [w]] ...] *)
+Definition r_vars (w : wire) : list (str * option Z) :=
+  map (fun p => match p with WL [n; v] => (r_str n, r_oZ v) | _ => ([], None) end) (r_list w).
+(* [[shape; [w]] ...]: get_bv_width; a term that is not listed counts as raising *)
+Definition r_obw (w : wire) : sexp -> option Z :=
+  fun t => match find (fun p => match p with WL [x; _] => sexp_eqb (r_sexp x) t | _ => false end) (r_list w) with
+           | Some (WL [_; v]) => r_oZ v
+           | _ => None
+           end.
+Fixpoint path_eqb (a b : path) : bool :=
+  match a, b with
+  | [], [] => true
+  | x :: a', y :: b' => Nat.eqb x y && path_eqb a' b'
+  | _, _ => false
+  end.
+Definition r_paths (w : wire) : path -> bool := fun p => existsb (fun x => path_eqb (r_path x) p) (r_list w).
+
+Definition dispatch_more4 (f : Z) (w : wire) : wire :=
+  match f, w with
+  | 130, WL [t; sorts; vars; isdef; decl; id; here] =>
+      w_ogsimps (rw_fresh_var (r_gs sorts) (r_vars vars) (r_bool isdef) (r_isvar decl) (r_Z id) (r_path here) (r_sexp t))
+  | 131, WL [t; sorts; bws; decl; here] =>
+      w_ogsimps (rw_bv_reduce_bw (r_gs sorts) (r_obw bws) (r_isvar decl) (r_path here) (r_sexp t))
+  | 132, WL [t; sorts; defs; here] =>
+      w_ogsimps (rw_bv_merge_bw (r_gs sorts) (r_defs defs) (r_path here) (r_sexp t))
+  | 133, WL [t; decl] => w_ogsimps (rw_str_contains (r_isvar decl) (r_sexp t))
+  | 134, WL [t; input; defpaths] => w_ogsimps (rw_elim_var (r_sexps input) (r_paths defpaths) (r_sexp t))
+  | 135, WL [t; here] => w_ogsimps (rw_remove_constructor (r_path here) (r_sexp t))
+  | 136, WL [t; here] => w_ogsimps (rw_remove_datatype (r_path here) (r_sexp t))
+  | _, _ => w_err
+  end%Z.
